@@ -7,10 +7,11 @@ TITLE = "Refetch references resolve to the refetch query for that field"
 TRANSLATORS = [t2_gql_tokens.translate]
 LEAN_MODULES = ["IsoVerif.Props.C25"]
 _P = "IsoVerif.Props.C25."
-THEOREMS = [_P + t for t in ("C25_witness_reorder", "C25_sort_commutes", "C25_partial", "C25_witness_not_order_preserving")]
+THEOREMS = [_P + t for t in ("C25_witness_reorder", "C25_sort_commutes", "C25_partial", "C25_witness_keys_merge",
+                                "C25_witness_not_order_preserving", "C25_witness_merge_not_order_preserving")]
 HARNESS = ("hx_ops", {"HX_ENGINE": "c25"})
 DRIVER = "drv_ops"
-CASES = {"quick": 400, "thorough": 12000}
+CASES = {"quick": 300, "thorough": 6000}
 TECHNIQUE = ("Lean 4: the refetch bookkeeping as sorted key lists (child numbering by untransformed key order, parent's usedRefetchQueries "
              "by transformed-and-sorted order, composition at run time) with the theorem that composing the indices is right for every "
              "order-preserving argument substitution and the F18 witness that it is wrong otherwise; on the real code an oracle follows the "
